@@ -23,7 +23,7 @@ ASSUMPTIONS = [
     "at most k states more than the minimal reference automaton",
     "element 'metadata' is judged against 'at most one child of any name' (C05), not its empty children section",
 ]
-REQUIRED = ["validations_of_nested_parent", "foreign_children_with_prefix", "validations_on_reused_parent_object", "collecting_calls_with_prefilled_list", "failfast_accept", "failfast_reject", "collecting_accept", "collecting_reject", "oracle_crosschecks"]
+REQUIRED = ["validations_of_nested_parent", "foreign_children_with_prefix", "validations_on_reused_parent_object", "validations_on_reused_rule_object", "collecting_calls_with_prefilled_list", "failfast_accept", "failfast_reject", "collecting_accept", "collecting_reject", "oracle_crosschecks"]
 EXHAUSTIVE = {"quick": False, "thorough": False}
 
 FOREIGN_NAME = "verifForeignElement"
@@ -115,10 +115,20 @@ def _reused_parent(rule_name, element, names):
     return p
 
 
+_RULE_OBJECTS = {}
+_PREVIOUS = {}
+
+
 def judge(ctx, rule_name, element, seq, expected, stats=None, reuse=False):
     """Runs the real validator in both modes on one sequence and compares with `expected`."""
     names = _materialise(seq, emlkit.spec_of(rule_name).names)
     wit = {"rule": rule_name, "element": element, "seq": list(seq)}
+    if reuse:
+        # a long-lived Rule object too (a caller that keeps `r = Rule(name)` or `get_rule(name)` around): what it validated before -
+        # including a fail-fast validation that ended in a raise - must not matter
+        wit["reused_objects"] = True
+        wit["previous_seq"] = _PREVIOUS.get(rule_name)
+        _PREVIOUS[rule_name] = list(seq)
     outcomes = []
     for mode in ("failfast", "collecting"):
         if reuse:
@@ -149,7 +159,14 @@ def judge(ctx, rule_name, element, seq, expected, stats=None, reuse=False):
             before = list(errs)
             ctx.count("collecting_calls_with_prefilled_list")
         try:
-            emlkit.validate_as(rule_name, parent, errs)
+            if reuse:
+                robj = _RULE_OBJECTS.get(rule_name)
+                if robj is None:
+                    robj = _RULE_OBJECTS[rule_name] = emlkit.mrule.Rule(rule_name)
+                ctx.count("validations_on_reused_rule_object")
+                robj.validate_rule(parent) if errs is None else robj.validate_rule(parent, errs)
+            else:
+                emlkit.validate_as(rule_name, parent, errs)
             if prefilled:
                 if len(errs) < len(before) or not all(a is b for a, b in zip(errs, before)):
                     ctx.violation("earlier-entries-disturbed|collecting", f"{rule_name}: entries present before the call were changed", wit)
@@ -312,6 +329,12 @@ def replay(ctx, witness):
         exp = relang.ACCEPT if len(seq) <= 1 else relang.REJECT
     else:
         exp = m.verdict(seq)
-    out = judge(ctx, r, witness.get("element"), seq, exp)
+    if witness.get("reused_objects"):
+        prev = witness.get("previous_seq")
+        if prev is not None:
+            judge(ctx, r, witness.get("element"), tuple(prev), m.verdict(tuple(prev)), reuse=True)
+        out = judge(ctx, r, witness.get("element"), seq, exp, reuse=True)
+    else:
+        out = judge(ctx, r, witness.get("element"), seq, exp)
     ctx.distinct((r, seq))
     ctx.sample({"rule": r, "children": list(seq), "reference": exp, "observed": out})
